@@ -136,7 +136,7 @@ pub fn run(ctx: &Arc<Ctx>) {
     let pr = sm9::params();
     let n = pr.n.clone();
     let _ = g0();
-    ctx.set_rule("P = [b]P1, Q = [a]P2 for a, b in {1,2,3,N-1,N-2,2^128,Annex ks,seeded}: full product a x b with both inputs affine, compared byte for byte (384 bytes) with e(P1,P2)^(ab) computed by the reference; the diagonal and a spread of pairs additionally against a full reference evaluation (generic Miller loop over 6t+2, two Frobenius steps, exponent (p^12-1)/N) on those very points; every pair again with Jacobian inputs Z != 1 (P, Q, both); structured Z (Q.z in Fp, purely imaginary, P.z in {2, p-1}); G1 points given by coordinates whose Montgomery form is a small plain integer (x = k R^-1, y = k R^-1) against a full reference evaluation; identity arguments (a or b = 0 mod N) give 1; bilinearity re-evaluated with the library's own GT exponentiation incl. exponents with all-zero 64-bit limbs and the boundary exponents N-1, N-2; e(P1,P2) != 1 and of order N; the GM/T 0044.5 value of e(P1,Ppub-s).");
+    ctx.set_rule("P = [b]P1, Q = [a]P2 for a, b in {1,2,3,N-1,N-2,2^128,Annex ks,seeded}: full product a x b with both inputs affine, compared byte for byte (384 bytes) with e(P1,P2)^(ab) computed by the reference; the diagonal and a spread of pairs additionally against a full reference evaluation (generic Miller loop over 6t+2, two Frobenius steps, exponent (p^12-1)/N) on those very points; every pair again with Jacobian inputs Z != 1 (P, Q, both); structured Z (Q.z in Fp, purely imaginary, P.z in {2, p-1}); G1 points given by coordinates whose Montgomery form is a small plain integer (x = k R^-1, y = k R^-1) against a full reference evaluation; identity arguments (a or b = 0 mod N) give 1; bilinearity re-evaluated with the library's own GT exponentiation incl. exponents with all-zero 64-bit limbs the boundary exponents N-1, N-2 and exponents with long runs of one bits; e(P1,P2) != 1 and of order N; the GM/T 0044.5 value of e(P1,Ppub-s).");
     let mut g = SplitMix::new(ctx.seed, "c12");
     let nseed = ctx.tier.pick(4usize, 60);
     let mut sc: Vec<(String, BigUint)> = vec![
@@ -266,6 +266,24 @@ pub fn run(ctx: &Arc<Ctx>) {
     }
     // bilinearity with the library's own exponentiation, incl. exponents with all-zero 64-bit limbs
     let zl: Vec<BigUint> = vec![BigUint::one() << 64usize, (BigUint::one() << 128usize) + 1u32, (BigUint::from(0x1234u32) << 192usize) + 15u32, BigUint::from(7u32), g.nonzero_below(&n), &n - 1u32, &n - 2u32];
+    let mut zl = zl;
+    {
+        let ones_runs: Vec<BigUint> = {
+        // runs of one bits: 2^k - 1 and 64 / 56 consecutive ones at several offsets (a "+1" that must ripple across
+        // limbs in a signed-digit recoding, a bit length taken through floating point, a window that is all ones)
+        let one = BigUint::one();
+        let mut v: Vec<BigUint> = Vec::new();
+        for k in [49u32, 56, 63, 64, 65, 112, 127, 128, 129, 191, 192, 193, 255] {
+            v.push((&one << k) - &one);
+        }
+        for s in [1u32, 13, 48, 64, 100, 128, 150, 190] {
+            v.push(((&one << 64u32) - &one) << s);
+            v.push(((&one << 56u32) - &one) << s);
+        }
+        v
+    };
+        zl.extend(ones_runs.into_iter().filter(|e| *e < n).step_by(3));
+    }
     for a in &zl {
         for b in [BigUint::one(), BigUint::from(2u32)] {
             cases.push(Case::Bilinear { a: hexbig(a), b: hexbig(&b) });
